@@ -354,6 +354,12 @@ impl<'a, 'b: 'a> Visitor<'a, 'b, Error> for ParentVisitor<'a, 'b> {
     let child = self.arena_tree.node(CDDLType::Type2(&t1.type2));
     self.insert(parent, child)?;
 
+    if t1.operator.is_some() {
+      // the operator walk has already descended into the target; a second descent per
+      // level makes the walk exponential in the nesting depth of operators
+      return Ok(());
+    }
+
     self.visit_type2(&t1.type2)
   }
 
